@@ -7,6 +7,7 @@ NOTE = ('Trusted base: clang-14 -O1 code generation, tools/ir2c.py (validated na
         'back ends, the environment models in rt/, the reference models in props/<id>/. Bounds per obligation are in the evidence file.')
 
 CLAIMED = {
+    'C16': ('every span constructor, first/last/subspan (static and dynamic), element access and iteration on exact-size heap parents of 0..6 (thorough 0..12) ints with full 64-bit symbolic offsets/counts/indices, in the three contract modes (off / throwing / terminate)', '2 C16'),
     'C15': ('all value pairs of 169 ordered integer type pairs, all six functions vs __int128 comparison; no value bound', '2 C15'),
 }
 NA = {
